@@ -545,3 +545,58 @@ def rule_string_delimiters(ctx: Ctx, rid="C05.STRING-DELIMITERS"):
             ctx.rep.bad(rid, con, f"{reason}: on {w!r}", witness=w, site=lc.rules[si].site, text=lc.rules[si].pattern)
     else:
         ctx.rep.ok(rid, con, "a literal opened by \" or ' ends exactly at the next quote of the same kind", site=lc.rules[si].site)
+
+
+MULTIWORD_REASON = ("is a documented multi-word token (white space inside it belongs to the token): the shorter keyword followed by "
+                    "white space and the second word IS the longer token")
+
+
+def rule_token_end_stable(ctx: Ctx, rid="C08.TOKEN-END-STABLE"):
+    """A token that is complete at end of input stays the same token, with the same end, when trivia
+    (white space, a line break, or the '/' of a comment) and anything else follow it."""
+    lc = ctx.main
+    L = ctx.lexicon(lc.name)
+    followers = {a for a in L.atoms if a == ord("/") or chr(a).isspace()}
+    res = L.unstable_ends(followers)
+    emitting = {i for i, r in enumerate(lc.rules) if r.emits}
+    # multi-word tokens: rule B's pattern contains white space and starts with the text of rule A
+    n = 0
+    reported = set()
+    for (a, b, how), w in sorted(res.items(), key=lambda kv: str(kv[0])):
+        if a not in emitting:
+            continue       # trivia followed by trivia may merge (\n+ then \s+): the token stream is unchanged
+        ra = lc.rules[a]
+        rb = lc.rules[b] if b is not None else None
+        n += 1
+        multi = rb is not None and ("\\s" in rb.pattern or " " in rb.pattern) and rb.emits
+        con = f"language/lexer.py:{lc.name}[{ra.name} then trivia -> {rb.name if rb else 'no token'}]"
+        if con in reported:
+            continue
+        reported.add(con)
+        if multi:
+            ctx.rep.ok(rid, con, f"allowed: {rb.name} ({rb.pattern!r}) {MULTIWORD_REASON}; e.g. {w!r}", witness=w, nontrivial=False)
+        else:
+            ctx.rep.bad(rid, con, f"the token {ra.name} complete at end of input {how} when trivia follows: on {w!r} the lexer takes "
+                        f"{rb.name if rb else 'nothing'}", witness=w, site=ra.site, text=f"{ra.name} / {rb.name if rb else None} {how}")
+    ctx.rep.ok(rid, f"language/lexer.py:{lc.name}", f"every other token keeps its identity and end when white space or a comment opener follows "
+               f"({len(res)} candidate deviations examined)")
+
+
+def rule_string_alphabet(ctx: Ctx, rid="C05.STRING-ALPHABET"):
+    """Every character except a line break and the literal's own delimiter can occur inside a string
+    literal (the other quote, backslash, digits, non-ASCII, '/' and '*'), and the empty literal exists."""
+    lc = ctx.main
+    L = ctx.lexicon(lc.name)
+    si = next((i for i, r in enumerate(lc.rules) if r.name == "STRING_LITERAL"), None)
+    if si is None:
+        raise AnalysisError("anchor vanished: STRING_LITERAL rule")
+    inside = L.used_atoms(si, skip_first=True)
+    missing = [a for a in L.atoms if a != 10 and a not in inside]
+    ctx.rep.check(not missing, rid, f"language/lexer.py:{lc.name}.STRING_LITERAL[content]",
+                  f"all {len(L.atoms) - 1} character classes other than the line break can occur inside a literal" if not missing else
+                  f"characters such as {[chr(a) for a in missing[:5]]} cannot be written inside a string literal", site=lc.rules[si].site,
+                  text=lc.rules[si].pattern)
+    empties = [q for q in ('""', "''") if L.select(q) == (si, 2)]
+    ctx.rep.check(len(empties) == 2, rid, f"language/lexer.py:{lc.name}.STRING_LITERAL[empty]",
+                  "the empty literal is a string token in both quote styles" if len(empties) == 2 else f"only {empties} lex as empty literals",
+                  site=lc.rules[si].site, text="empty literal")
